@@ -265,7 +265,7 @@ def add_ovlread(reg):
     reg.set_class_home("IH5InnerNodeRead", "ih5/overlay.py", "IH5InnerNode")
     reg.set_class_home("IH5InnerNodeGet", "ih5/overlay.py", "IH5InnerNode")
     reg.method_bindings[("IH5InnerNodeGet", "__getitem__")] = getitem_stub
-    specs = [GetItem(), Contains(), ExpectReal(), Find(), Get(), GetChild(), NodeSeqWalk()]
+    specs = [GetItem(), Contains(), ExpectReal(), Find(), Get(), GetChild(), NodeSeqWalk(), ParentPath(), RelPath(), GuardValue()]
     for s in specs:
         reg.add(s)
     return specs
@@ -437,3 +437,106 @@ class NodeSeqWalk(FnSpec):
             ("special-paths-are-the-start-node", z3.Implies(TRIVIAL, z3.And(res.n == 1, res.last == start)), "'/' and '.' denote the start node itself (the record's root for absolute paths)"),
             ("ends-at-the-node-reached-by-the-resolving-prefix", z3.Implies(z3.Not(TRIVIAL), z3.And(0 <= k, k <= NSEG, res.last == WALK(k), z3.ForAll([j], z3.Implies(z3.And(0 <= j, j < k), RESOLVES(WALK(j), SEG(j)))), z3.Or(k == NSEG, z3.Not(RESOLVES(WALK(k), SEG(k)))))), "the walk follows the segments from the start node, each step through the kernel's resolution at the node reached so far, and stops exactly at the first segment the kernel does not list (deleted or never created) — or at the end of the path; so a path is found iff every segment resolves in turn"),
         ]
+
+
+# ---- small helpers of IH5Node: _parent_path, _rel_path, _guard_value ----------------------------------------------------------------------------
+SL_ = z3.StringVal("/")
+
+
+class ParentPath(FnSpec):
+    file = "ih5/overlay.py"
+    qual = "IH5Node._parent_path"
+    props = ("C01", "C09")
+
+    def setup(self, cx):
+        n = SObj("IH5InnerNodeRead", name="self")
+        d, x = z3.String("parent_part"), z3.String("last_segment")
+        root = cx.choose(2) == 0
+        if root:
+            g = SL_
+        else:
+            cx.assume(z3.And(z3.PrefixOf(SL_, d), z3.SuffixOf(SL_, d), z3.Not(z3.Contains(x, SL_)), z3.Length(x) > 0, z3.Or(d == SL_, z3.Not(z3.SuffixOf(z3.StringVal("//"), d)))))  # absolute normalised path d ++ x
+            g = z3.Concat(d, x)
+        n.fields["_gpath"] = SStr(g)
+        a = A(self=n)
+        a.root, a.d = root, d
+        return a
+
+    def raises(self, cx, a):
+        return {}
+
+    def ensures(self, cx, a, res):
+        t = res.t if isinstance(res, SStr) else (z3.StringVal(res) if isinstance(res, str) else None)
+        if t is None:
+            return [("a-path", z3.BoolVal(False), "")]
+        if a.root:
+            return [("root-is-its-own-parent", t == SL_, "the root is its own parent")]
+        d = a.d
+        return [("path-without-its-last-segment", t == z3.If(d == SL_, SL_, z3.SubString(d, 0, z3.Length(d) - 1)), "the parent of /a/b is /a, the parent of /a is / (never the empty path)")]
+
+
+GPATH = z3.Const("node_path", S)
+
+
+class RelPath(FnSpec):
+    file = "ih5/overlay.py"
+    qual = "IH5Node._rel_path"
+    props = ("C01", "C09")
+
+    def init(self):
+        self.bindings["int"] = lambda cx, b: SInt(z3.If(b.t if isinstance(b, SBool) else z3.BoolVal(bool(b)), 1, 0))
+
+    def setup(self, cx):
+        n = SObj("IH5InnerNodeRead", name="self")
+        n.fields["_gpath"] = SStr(GPATH)
+        cx.assume(z3.PrefixOf(SL_, GPATH))
+        return A(self=n, path=SStr(z3.String("path")))
+
+    def requires(self, cx, a):
+        return [("non-empty-path", z3.Length(a.path.t) > 0)]
+
+    def raises(self, cx, a):
+        p = a.path.t
+        return {"RuntimeError": z3.And(z3.PrefixOf(SL_, p), z3.Not(z3.PrefixOf(GPATH, p)))}
+
+    def ensures(self, cx, a, res):
+        p = a.path.t
+        t = res.t if isinstance(res, SStr) else (z3.StringVal(res) if isinstance(res, str) else None)
+        if t is None:
+            return [("a-path", z3.BoolVal(False), "")]
+        start = z3.Length(GPATH) + z3.If(GPATH != SL_, 1, 0)
+        return [("relative-unchanged-absolute-stripped-of-the-node-path", t == z3.If(z3.PrefixOf(SL_, p), z3.SubString(p, start, z3.Length(p) - start), p), "a relative path is returned as it is; an absolute one below the node loses the node's path and the separating '/'")]
+
+
+IS_MARK, IS_NODE, IS_SOFT, IS_EXT = z3.Bools("value_is_the_deletion_marker value_is_an_overlay_node value_is_a_soft_link value_is_an_external_link")
+
+
+class ValueArg(SVal):
+    def py_isinstance(self, cx, c):
+        n = getattr(c, "name", c)
+        return {"IH5Node": IS_NODE, "H5SoftLink": IS_SOFT, "H5ExternalLink": IS_EXT}.get(n) if n in ("IH5Node", "H5SoftLink", "H5ExternalLink") else (_ for _ in ()).throw(Unsupported(f"isinstance(value, {n})"))
+
+    def py_str(self, cx):
+        return SStr(z3.String("value_text"))
+
+
+class GuardValue(FnSpec):
+    file = "ih5/overlay.py"
+    qual = "IH5Node._guard_value"
+    props = ("C01", "C09", "C17")
+
+    def init(self):
+        from pyvc.engine import SClass
+
+        self.bindings["_is_del_mark"] = lambda cx, v: SBool(IS_MARK)
+        self.bindings["IH5Node"] = SClass("IH5Node")
+        self.bindings["h5py"] = type("H", (SVal,), {"py_getattr": lambda s, cx, n: SClass("H5" + n)})()
+
+    def setup(self, cx):
+        return A(self=SObj("IH5InnerNodeRead", name="self"), data=ValueArg())
+
+    def raises(self, cx, a):
+        return {"ValueError": z3.Or(IS_MARK, IS_NODE, IS_SOFT, IS_EXT)}
+
+    def ensures(self, cx, a, res):
+        return [("only-storable-values-pass", z3.Not(z3.Or(IS_MARK, IS_NODE, IS_SOFT, IS_EXT)), "a value passes exactly when it is neither the reserved deletion marker (the one byte string IH5 cannot store) nor a node or link object")]
